@@ -27,7 +27,7 @@ type TotalCase struct {
 var kindWeights = []struct {
 	kind string
 	w    int
-}{{"cert", 40}, {"tbs", 9}, {"crl", 13}, {"spki", 9}, {"pkcs1", 5}, {"pkcs8", 7}, {"sec1", 4}, {"csr", 8}, {"other", 2}, {"raw", 3}}
+}{{"cert", 37}, {"sctcert", 4}, {"tbs", 9}, {"crl", 13}, {"spki", 9}, {"pkcs1", 5}, {"pkcs8", 7}, {"sec1", 4}, {"csr", 8}, {"other", 2}, {"raw", 3}}
 
 func genFixtureRef(t *rapid.T, kinds []string) (int, string) {
 	total := 0
@@ -64,7 +64,7 @@ func genFixtureRef(t *rapid.T, kinds []string) (int, string) {
 	return i, Fixtures()[i].Name
 }
 
-var allKinds = []string{"cert", "tbs", "crl", "spki", "pkcs1", "pkcs8", "sec1", "csr", "other", "raw"}
+var allKinds = []string{"cert", "sctcert", "tbs", "crl", "spki", "pkcs1", "pkcs8", "sec1", "csr", "other", "raw"}
 
 func genTotal(t *rapid.T) TotalCase {
 	var c TotalCase
@@ -77,6 +77,10 @@ func genTotal(t *rapid.T) TotalCase {
 		c.Src = 0
 	}
 	c.Muts = genMutsOps(t, 0, 4, true)
+	if c.Raw == nil && Fixtures()[c.Src].Kind == "sctcert" && len(c.Muts) < 4 {
+		// the first edit happens inside the TLS encoding of the embedded SCT list
+		c.Muts = append([]Mut{{Op: mSCTList, A: rapid.IntRange(0, 1<<16).Draw(t, "scta")}}, c.Muts...)
+	}
 	c.PEM = rapid.IntRange(0, 15).Draw(t, "pem") == 0
 	return c
 }
@@ -278,7 +282,7 @@ func checkTotal(t *testing.T, c TotalCase) harness.Verdict {
 	if mutated && object {
 		v.NonTrivial = true
 		v.Class("mutated-and-parsed")
-		own := map[string]string{"cert": "ParseCertificate", "tbs": "ParseTBSCertificate", "crl": "ParseCertificateListDER", "spki": "ParsePKIXPublicKey", "pkcs1": "ParsePKCS1PrivateKey",
+		own := map[string]string{"cert": "ParseCertificate", "sctcert": "ParseCertificate", "tbs": "ParseTBSCertificate", "crl": "ParseCertificateListDER", "spki": "ParsePKIXPublicKey", "pkcs1": "ParsePKCS1PrivateKey",
 			"pkcs8": "ParsePKCS8PrivateKey", "sec1": "ParseECPrivateKey", "csr": "ParseCertificateRequest"}[kind]
 		if own != "" {
 			v.Class("mutated:" + kind + ":" + res[own])
